@@ -1,7 +1,7 @@
 (* C10 - wedge, geometric product, meet.  Pinned theorems only. *)
 From Coq Require Import ZArith List Bool Reals Lra.
 From Flocq Require Import Core BinarySingleNaN.
-Require Import GV.FloatBase GV.FloatLemmas GV.AngleM GV.AngleProofs GV.GeonumM GV.GeonumProofs GV.TraitsM GV.NewProofs GV.CtorProofs GV.ClosureProofs.
+Require Import GV.FloatBase GV.FloatLemmas GV.AngleM GV.AngleProofs GV.GeonumM GV.GeonumProofs GV.TraitsM GV.NewProofs GV.CtorProofs GV.ClosureProofs GV.PiBounds GV.TrigProofs GV.DotValue.
 Open Scope R_scope.
 
 Theorem C10_wedge : forall (L : libm) a b,
@@ -38,3 +38,20 @@ Print Assumptions C10_parallel.
 Theorem C10_special_hyps_inhabited : cos_zero_one trivial_libm /\ sin_zero_zero trivial_libm.
 Proof. exact special_hyps_inhabited. Qed.
 Print Assumptions C10_special_hyps_inhabited.
+
+(* the wedge magnitude is |a||b||sin(direction difference)| (real pi) within |a||b|(u + 1.0002e-10) + 2^-1073,
+   for any libm whose sin is accurate to u on [-8,8] *)
+Theorem C10_wedge_value : forall (L : libm) (u : R) a b, sin_acc L u -> u <= / 1000 ->
+  canonp (rem (ang a)) -> canonp (rem (ang b)) -> (0 <= blade (ang a))%Z -> (0 <= blade (ang b))%Z ->
+  fin (mag (wedge L a b)) ->
+  Rabs (R_ (mag (wedge L a b)) - R_ (mag a) * R_ (mag b) * Rabs (sin (dir (ang b) - dir (ang a))))
+    <= Rabs (R_ (mag a) * R_ (mag b)) * (u + 10002 / 100000000000000) + bpow radix2 (-1073).
+Proof. exact wedge_mag_value. Qed.
+Print Assumptions C10_wedge_value.
+
+Theorem C10_sin_value : forall (L : libm) (u : R) a b, sin_acc L u ->
+  canonp (rem a) -> canonp (rem b) -> (0 <= blade a)%Z -> (0 <= blade b)%Z ->
+  let s := sinF L (grade_angle (geometric_sub b a)) in
+  fin s /\ Rabs (R_ s - sin (dir b - dir a)) <= u + 10001 / 100000000000000.
+Proof. exact wedge_sin_value. Qed.
+Print Assumptions C10_sin_value.
